@@ -8,6 +8,8 @@ http.RoundTripper that renders each class with real keys and certificates, re-ve
 crypto over the independent encoding, and runs the entry decoder on the spec's classes and on seeded mutations.
 """
 import json
+import os
+import random
 
 from vlib import Infra
 
@@ -53,7 +55,7 @@ def run(ctx, replay=None):
             raise Infra("replay file carries neither a behaviour nor a decoder input")
         return
     # 1. exhaustive model check: methods x statuses x classes, sequences of calls, repeated submissions
-    ctx.tlc("client", "MCLogClient", ctx.pick("LogClientSmall.cfg", "LogClient.cfg"), workers=min(8, __import__("os").cpu_count() or 4))
+    ctx.tlc("client", "MCLogClient", ctx.pick("LogClientSmall.cfg", "LogClient.cfg"), workers=min(8, os.cpu_count() or 4))
     # 2. every completed single call as a case, the entry-decoder table
     r = ctx.tlc("client", "MCLogClient", ctx.pick("LogClientCases.cfg", "LogClientCasesFull.cfg"), workers=1, count=False)
     cases = dedup(r.records.get("CASE", []))
@@ -67,7 +69,6 @@ def run(ctx, replay=None):
         raise Infra("sequence export produced nothing")
     if not ctx.thorough():
         # quick tier: every second call after (at most) 6 seeded first calls
-        import random
         rnd = random.Random(ctx.seed)
         by = {}
         for s in seqs:
